@@ -8,12 +8,12 @@ CORPUS = os.path.join(fw.VERIF, "corpus", "kernel")
 
 # state components (first token of a dump line) a property's theorems talk about.  A divergence in
 # another component is reported by the properties that own it (DESIGN section 5).
-ALL = {"result", "nv", "E", "F", "C", "del", "cnt", "flags", "OUT", "HFS", "CELL", "P", "Q", "crash", "missing"}
+ALL = {"TRK", "result", "nv", "E", "F", "C", "del", "cnt", "flags", "OUT", "HFS", "CELL", "P", "Q", "crash", "missing"}
 COMPONENTS = {
     "C01": {"OUT", "HFS", "CELL", "E", "F", "C", "del", "nv", "Q", "crash", "missing", "result"},
     "C02": {"nv", "E", "F", "C", "del", "cnt", "Q", "crash", "missing", "result"},
     "C03": {"P", "nv", "crash", "missing"},
-    "C04": {"nv", "E", "F", "C", "del", "cnt", "flags", "P", "crash", "missing", "result"},
+    "C04": {"TRK", "nv", "E", "F", "C", "del", "cnt", "flags", "P", "crash", "missing", "result"},
     "C08": {"E", "F", "Q", "crash", "missing", "result"},
     "C09": {"HFS", "CELL", "Q", "crash", "missing"},
     "C10": {"Q", "crash", "missing"},
@@ -22,7 +22,7 @@ COMPONENTS = {
     "C17": ALL,
 }
 
-INV_PROPS = {"C01", "C02", "C04", "C12"}
+INV_PROPS = {"C01", "C02", "C12"}
 
 def script_blocks(path):
     """{name: [lines]} of a .scripts file"""
